@@ -189,6 +189,9 @@ uint32_t File::defaultLogContainerSize() const {
 
 void File::setDefaultLogContainerSize(uint32_t defaultLogContainerSize) {
     m_uncompressedFile.setDefaultLogContainerSize(defaultLogContainerSize);
+
+    /* the buffer must admit a whole log container: the compression thread waits for that much data */
+    m_uncompressedFile.setBufferSize(defaultLogContainerSize);
 }
 
 ObjectHeaderBase * File::createObject(ObjectType type) {
